@@ -39,6 +39,10 @@ func funcKeyOf(f *types.Func) string {
 
 func (x *Exec) evalCall(st *State, e *ast.CallExpr) []Val {
 	info := x.info()
+	if r, ok := st.inlined[e]; ok {
+		delete(st.inlined, e)
+		return r
+	}
 	// conversion
 	if tv, ok := info.Types[e.Fun]; ok && tv.IsType() {
 		v := x.eval(st, e.Args[0])
@@ -188,7 +192,7 @@ func (x *Exec) applyContract(st *State, site ast.Node, key string, clauses []*Cl
 		}
 		n++
 		for _, part := range env.evalClause(c) {
-			x.oblige(st, "requires", site0+":requires:"+part.label(n), c.Tags, part.term)
+			x.oblige(st, "requires", site0+":requires:"+part.label(n), part.tagsFor(c.Tags), part.term)
 		}
 	}
 	pre := st.fork()
@@ -597,7 +601,7 @@ func (x *Exec) runEvent(st *State, site ast.Node, ev *EventSpec, binds map[strin
 		case "requires":
 			n++
 			for _, p := range env.evalClause(c) {
-				x.oblige(st, "event", name+":"+p.label(n), c.Tags, p.term)
+				x.oblige(st, "event", name+":"+p.label(n), p.tagsFor(c.Tags), p.term)
 			}
 		}
 	}
